@@ -89,9 +89,14 @@ func (w *worker) lost(args []string, err error) {
 	} else if respc.IsTimeout(err) {
 		why = fmt.Sprintf("server did not answer %q within %v (wedged?)", trunc(args), w.c.Timeout)
 	}
-	if w.cur != nil && len(args) >= 3 && args[len(args)-3] == "GET" {
-		if o, ok := w.cur.objs[args[len(args)-1]]; ok && args[len(args)-2] == w.cur.key {
-			why += fmt.Sprintf(" [GET object: %q]", o.Args)
+	if w.cur != nil {
+		for i := 1; i+2 < len(args); i++ {
+			if args[i] == "GET" && args[i+1] == w.cur.key {
+				if o, ok := w.cur.objs[args[i+2]]; ok {
+					why += fmt.Sprintf(" [GET object: %q]", o.Args)
+				}
+				break
+			}
 		}
 	}
 	w.ctx.Inconclusive(why)
